@@ -355,6 +355,14 @@ RULE_EXTRA8 = {
     "C19": "Name families (P, P.S, P.S.T registered with different decorations): the expectation follows the documented rule on the style as built - the whole remainder if registered, else its first section.",
 }
 
+# additions of round 9 (DESIGN 9.18)
+RULE_EXTRA9 = {
+    "C02": "A sixth of the cases have an application callback that rules off every row: a table-owned add-time row callback that adds a separator when it is handed a row of the table (building from within a building call).",
+    "C03": "Custom decorations may be written out completely (every documented glyph field) and used without Populate; an eighth of the cases change the items of the first cells after building and leave Cell.Update() to a pre-cell callback owned by column 1.",
+    "C04": "As C03 (complete literal decorations; LateText).",
+    "C09": "Two more partial application decorations (inner divider only, header bar only).",
+}
+
 # properties deliberately not claimed, with the reason (empty: the technique applies to all 19)
 NOT_APPLICABLE = {}
 
@@ -369,3 +377,6 @@ for _pid, _extra in RULE_EXTRA7.items():
 
 for _pid, _extra in RULE_EXTRA8.items():
     PLAN[_pid]["rule"] = PLAN[_pid]["rule"] + " Round 8: " + _extra
+
+for _pid, _extra in RULE_EXTRA9.items():
+    PLAN[_pid]["rule"] = PLAN[_pid]["rule"] + " Round 9: " + _extra
